@@ -1,4 +1,666 @@
 package main
 
-func runHVS()           {}
-func replayHVS(c Case) {}
+// E2 on the real consensus/types.HeightVoteSet (thorough tier): routing of votes to the vote set
+// of their (round, type), rounds created by SetRound and by peers (catch-up rounds, at most two per
+// peer), votes for rounds that do not exist yet. Every history of at most hvsDepth operations over
+// the alphabet below is explored (states de-duplicated on all mutable fields + reference tally).
+
+import (
+	"crypto/sha256"
+	"fmt"
+	"os"
+	"sort"
+	"strings"
+	"sync/atomic"
+
+	ctypes "github.com/kardiachain/go-kardia/consensus/types"
+	"github.com/kardiachain/go-kardia/lib/log"
+	"github.com/kardiachain/go-kardia/lib/p2p"
+	kproto "github.com/kardiachain/go-kardia/proto/kardiachain/types"
+	"github.com/kardiachain/go-kardia/types"
+
+	"verif/mc/par"
+)
+
+const (
+	hvsRounds = 4 // rounds 1..4; round 4 is never tracked by SetRound
+	hvsSets   = hvsRounds * 2
+)
+
+var hvsDepth = 5 // thorough; quick uses 3 on one vector
+
+type hvsToken struct {
+	name, kind string
+	vote       *types.Vote
+	peer       string
+	setRound   uint32
+	claimRound uint32
+	// reference classification of a vote token
+	counts bool
+	cv, cb int
+	set    int
+	round  uint32
+}
+
+func setIndex(round uint32, t kproto.SignedMsgType) int {
+	i := int(round-1) * 2
+	if t == kproto.PrecommitType {
+		i++
+	}
+	return i
+}
+
+func setName(s int) string {
+	t := "prevote"
+	if s%2 == 1 {
+		t = "precommit"
+	}
+	return fmt.Sprintf("r%d/%s", s/2+1, t)
+}
+
+type hvsJob struct {
+	pw     []int64
+	n      int
+	keys   []keyPair
+	valSet *types.ValidatorSet
+	quorum []bool
+	toks   []*hvsToken
+	byName map[string]*hvsToken
+	voteID map[*types.Vote]uint16
+}
+
+// classifyHVS: the reference decision for which (round, type) set, validator and block a vote counts.
+func classifyHVS(keys []keyPair, v *types.Vote) (ok bool, set, val, blk int) {
+	if int(v.ValidatorIndex) >= len(keys) || v.Height != height || v.Round < 1 || v.Round > hvsRounds {
+		return
+	}
+	if v.Type != kproto.PrevoteType && v.Type != kproto.PrecommitType {
+		return
+	}
+	i := int(v.ValidatorIndex)
+	var a address
+	copy(a[:], v.ValidatorAddress[:])
+	id := refOf(v.BlockID)
+	b := blkIndex(id)
+	if a != keys[i].addr || b < 0 {
+		return
+	}
+	if !refVerify(a, signBytes(chainID, typeTag(v.Type), height, v.Round, id, v.Timestamp), v.Signature) {
+		return
+	}
+	return true, setIndex(v.Round, v.Type), i, b
+}
+
+func newHVSJob(pw []int64) *hvsJob {
+	j := &hvsJob{pw: pw, n: len(pw), byName: map[string]*hvsToken{}, voteID: map[*types.Vote]uint16{}}
+	j.valSet, j.keys, _ = makeValSet(pw)
+	j.quorum = quorumTable(pw)
+	add := func(t *hvsToken) {
+		if t.vote != nil {
+			t.counts, t.set, t.cv, t.cb = classifyHVS(j.keys, t.vote)
+			t.round = t.vote.Round
+			j.voteID[t.vote] = uint16(len(j.toks) + 1)
+		}
+		j.toks = append(j.toks, t)
+		j.byName[t.name] = t
+	}
+	tn := map[kproto.SignedMsgType]string{kproto.PrevoteType: "pv", kproto.PrecommitType: "pc"}
+	mk := func(i int, rd uint32, t kproto.SignedMsgType, b int, h uint64) *types.Vote {
+		return mkVote(voteSpec{idx: uint32(i), addr: j.keys[i].addr, signer: j.keys[i], h: h, r: rd, typ: t, blk: b, ts: tsOf(i, 0), chain: chainID})
+	}
+	// every validator's vote for A in rounds 1..3, both types, delivered by "its" peer p<i>
+	for i := 0; i < j.n; i++ {
+		for rd := uint32(1); rd <= 3; rd++ {
+			for _, t := range voteTypes {
+				add(&hvsToken{name: fmt.Sprintf("p%d>v%d:r%d:%s:A", i, i, rd, tn[t]), kind: "vote", vote: mk(i, rd, t, bA, height), peer: fmt.Sprintf("p%d", i)})
+			}
+		}
+	}
+	// validator 0's conflicting votes for B, delivered by another peer q
+	for rd := uint32(1); rd <= 3; rd++ {
+		for _, t := range voteTypes {
+			add(&hvsToken{name: fmt.Sprintf("q>v0:r%d:%s:B", rd, tn[t]), kind: "vote-B", vote: mk(0, rd, t, bB, height), peer: "q"})
+		}
+	}
+	// a third unknown round from peer p0; a wrong-height vote for an unknown round; an invalid type
+	add(&hvsToken{name: "p0>v0:r4:pv:A", kind: "future", vote: mk(0, 4, kproto.PrevoteType, bA, height), peer: "p0"})
+	add(&hvsToken{name: "p1>v1:r2:pv:A:!h", kind: "!h", vote: mk(1, 2, kproto.PrevoteType, bA, height+1), peer: "p1"})
+	bad := mk(0, 1, kproto.PrevoteType, bA, height)
+	bad.Type = 0
+	add(&hvsToken{name: "p0>v0:r1:!type", kind: "!type", vote: bad, peer: "p0"})
+	add(&hvsToken{name: "SetRound(2)", kind: "setround", setRound: 2})
+	add(&hvsToken{name: "SetRound(3)", kind: "setround", setRound: 3})
+	add(&hvsToken{name: "claim(r1:pv:q:A)", kind: "claim", claimRound: 1})
+	add(&hvsToken{name: "claim(r2:pv:q:A)", kind: "claim", claimRound: 2})
+	for _, t := range j.toks {
+		if t.vote == nil {
+			continue
+		}
+		wantValid := t.kind == "vote" || t.kind == "vote-B" || t.kind == "future"
+		if wantValid != t.counts {
+			fmt.Printf("MACHINERY-ERROR property=C02 HeightVoteSet token %s: intended valid=%v, reference counts=%v\n", t.name, wantValid, t.counts)
+			r.Vacuous("a HeightVoteSet token is not classified as intended")
+		}
+	}
+	return j
+}
+
+// hvsOracle: one reference tally per (round, type) set, the highest round announced by SetRound and,
+// per set, the validators whose FIRST valid vote arrived while the round was not yet announced
+// (a HeightVoteSet may legitimately refuse those; they are left out of completeness).
+type hvsOracle struct {
+	sets     [hvsSets]oracleState
+	excluded [hvsSets]uint8
+	tracked  uint32
+}
+
+func newHVSOracle() hvsOracle {
+	o := hvsOracle{tracked: 1}
+	for i := range o.sets {
+		o.sets[i] = newOracle()
+	}
+	return o
+}
+
+func (o hvsOracle) apply(t *hvsToken) hvsOracle {
+	switch {
+	case t.setRound != 0:
+		if t.setRound > o.tracked {
+			o.tracked = t.setRound
+		}
+	case t.vote != nil && t.counts:
+		s := &o.sets[t.set]
+		if s.first[t.cv] < 0 {
+			s.first[t.cv] = int8(t.cb)
+			if t.round > o.tracked {
+				o.excluded[t.set] |= 1 << uint(t.cv)
+			}
+		}
+		s.offered |= 1 << uint(4*t.cv+t.cb)
+	}
+	return o
+}
+
+type hvsObs struct {
+	sets     [hvsSets]obs
+	exists   [hvsSets]bool
+	polRound uint32
+	polBlk   int8
+}
+
+func (j *hvsJob) newHVS() *ctypes.HeightVoteSet {
+	return ctypes.NewHeightVoteSet(log.New(), chainID, height, j.valSet)
+}
+
+func (j *hvsJob) apply(h *ctypes.HeightVoteSet, t *hvsToken) (added bool, err error, p string) {
+	p = safely(func() {
+		switch {
+		case t.vote != nil:
+			added, err = h.AddVote(t.vote, p2p.ID(t.peer))
+		case t.setRound != 0:
+			h.SetRound(t.setRound)
+		default:
+			err = h.SetPeerMaj23(t.claimRound, kproto.PrevoteType, p2p.ID("q"), repoID(refIDs[bA]))
+		}
+	})
+	return
+}
+
+func (j *hvsJob) observe(h *ctypes.HeightVoteSet) (o hvsObs, p string) {
+	p = safely(func() {
+		for rd := uint32(1); rd <= hvsRounds; rd++ {
+			for ti, vs := range []*types.VoteSet{h.Prevotes(rd), h.Precommits(rd)} {
+				if vs == nil {
+					continue
+				}
+				s := int(rd-1)*2 + ti
+				o.exists[s] = true
+				ob, p2 := observe(vs)
+				if p2 != "" {
+					panic(p2)
+				}
+				o.sets[s] = ob
+			}
+		}
+		pr, id := h.POLInfo()
+		o.polRound = pr
+		o.polBlk = int8(blkIndex(refOf(id)))
+	})
+	return
+}
+
+func (j *hvsJob) keyOf(h *ctypes.HeightVoteSet) implKey {
+	d := ctypes.VerifC02DumpHVS(h)
+	hs := sha256.New()
+	fmt.Fprintf(hs, "%d|%v|%v|%v|", d.Round, d.Rounds, d.Peers, d.Catchup)
+	vj := &job{voteID: j.voteID}
+	for _, rd := range d.Rounds {
+		for _, vs := range []*types.VoteSet{h.Prevotes(rd), h.Precommits(rd)} {
+			if vs == nil {
+				hs.Write([]byte{0})
+				continue
+			}
+			k := vj.keyOf(vs)
+			hs.Write(k[:])
+		}
+	}
+	var k implKey
+	copy(k[:], hs.Sum(nil)[:16])
+	return k
+}
+
+func (j *hvsJob) judge(pre hvsObs, t *hvsToken, added bool, err error, post hvsObs, or hvsOracle) []fired {
+	var f []fired
+	n := j.n
+	add := func(o, d string, a ...interface{}) { f = append(f, fired{o, fmt.Sprintf(d, a...)}) }
+	if t.vote != nil && !t.counts && added && err == nil {
+		add("hvs-invalid-vote-accepted", "%s returned added=true, err=nil", t.name)
+	}
+	for s := 0; s < hvsSets; s++ {
+		ob, os := post.sets[s], or.sets[s]
+		if ob.ok || ob.has || ob.isCommit {
+			switch {
+			case ob.ok && ob.maj < 0:
+				add("hvs-soundness", "%s reports a majority for a block id nobody was offered", setName(s))
+			case ob.ok && !j.quorum[os.signers(n, int(ob.maj))]:
+				add("hvs-soundness", "%s reports a majority for %s but only validators %s validly signed it for that round and type",
+					setName(s), blkName[ob.maj], maskStr(os.signers(n, int(ob.maj)), n))
+			case !ob.ok:
+				add("hvs-soundness", "%s: HasTwoThirdsMajority/IsCommit without TwoThirdsMajority", setName(s))
+			}
+		}
+		if ob.any && !j.quorum[os.voted(n)] {
+			add("hvs-any-soundness", "%s reports HasTwoThirdsAny but only validators %s signed anything for that round and type", setName(s), maskStr(os.voted(n), n))
+		}
+		if ob.all && os.voted(n) != 1<<uint(n)-1 {
+			add("hvs-all-soundness", "%s reports HasAll but only validators %s signed anything for that round and type", setName(s), maskStr(os.voted(n), n))
+		}
+		if uint32(s/2+1) <= or.tracked {
+			for b := bA; b < nBlk; b++ {
+				m := os.firstFor(n, b) &^ int(or.excluded[s])
+				if j.quorum[m] && !(ob.ok && ob.has) {
+					add("hvs-completeness", "validators %s each offered a valid first vote for %s in %s (a round announced by SetRound), no majority reported (vote set exists: %v)",
+						maskStr(m, n), blkName[b], setName(s), post.exists[s])
+				}
+			}
+		}
+		if p := pre.sets[s]; p.ok && (!ob.ok || ob.maj != p.maj) {
+			add("hvs-maj23-changed", "%s: majority was %s, now %s", setName(s), majName(p), majName(ob))
+		}
+	}
+	if post.polRound != 0 {
+		if post.polRound > hvsRounds || post.polBlk < 0 {
+			add("hvs-pol-soundness", "POLInfo reports round %d / a block id outside the universe", post.polRound)
+		} else if m := or.sets[setIndex(post.polRound, kproto.PrevoteType)].signers(n, int(post.polBlk)); !j.quorum[m] {
+			add("hvs-pol-soundness", "POLInfo reports +2/3 prevotes for %s in round %d but only validators %s signed that", blkName[post.polBlk], post.polRound, maskStr(m, n))
+		}
+	}
+	return f
+}
+
+type hvsNode struct {
+	h      *ctypes.HeightVoteSet
+	key    implKey
+	or     hvsOracle
+	ob     hvsObs
+	parent int32
+	tok    int16
+	depth  int16
+}
+
+type hvsKey struct {
+	k  implKey
+	or hvsOracle
+}
+
+type hvsSucc struct {
+	tok int16
+	h   *ctypes.HeightVoteSet
+	key implKey
+	or  hvsOracle
+	ob  hvsObs
+}
+
+type hvsViol struct {
+	f      fired
+	parent int32
+	tok    int16
+}
+
+var hvsTokenCount = map[string]*int64{}
+var hvsRefusedRound, hvsCatchupCreated int64
+
+func (j *hvsJob) path(nodes []hvsNode, idx int32) []*hvsToken {
+	var rev []*hvsToken
+	for idx > 0 {
+		rev = append(rev, j.toks[nodes[idx].tok])
+		idx = nodes[idx].parent
+	}
+	for a, b := 0, len(rev)-1; a < b; a, b = a+1, b-1 {
+		rev[a], rev[b] = rev[b], rev[a]
+	}
+	return rev
+}
+
+// runOps replays a history on a fresh HeightVoteSet; returns the first firing step.
+func (j *hvsJob) runOps(ops []*hvsToken, trace func(string)) (int, []fired) {
+	h := j.newHVS()
+	or := newHVSOracle()
+	ob, p := j.observe(h)
+	if p != "" {
+		return 0, []fired{{"hvs-panic", firstLine(p)}}
+	}
+	for i, t := range ops {
+		added, err, p := j.apply(h, t)
+		if p != "" {
+			return i, []fired{{"hvs-panic", t.name + " panicked: " + firstLine(p)}}
+		}
+		or2 := or.apply(t)
+		ob2, p := j.observe(h)
+		if p != "" {
+			return i, []fired{{"hvs-panic", "query after " + t.name + " panicked: " + firstLine(p)}}
+		}
+		if trace != nil {
+			var maj []string
+			for s := 0; s < hvsSets; s++ {
+				if ob2.sets[s].ok {
+					maj = append(maj, setName(s)+"="+majName(ob2.sets[s]))
+				}
+			}
+			trace(fmt.Sprintf("  %-22s -> added=%v err=%v | majorities: %v | POLInfo round=%d", t.name, added, errStr(err), maj, ob2.polRound))
+		}
+		if fs := j.judge(ob, t, added, err, ob2, or2); len(fs) > 0 {
+			return i, fs
+		}
+		or, ob = or2, ob2
+	}
+	return -1, nil
+}
+
+func hvsOpNames(ops []*hvsToken) []string {
+	s := make([]string, len(ops))
+	for i, t := range ops {
+		s[i] = t.name
+	}
+	return s
+}
+
+func (j *hvsJob) explore() {
+	h0 := j.newHVS()
+	ob0, p := j.observe(h0)
+	if p != "" {
+		r.Violation("C02|hvs|vector="+vecName(j.pw)+"|ops=|oracle=hvs-panic", "query on a new HeightVoteSet panicked: "+firstLine(p), Case{Kind: "hvs", Vector: j.pw, Oracle: "hvs-panic"})
+		return
+	}
+	nodes := []hvsNode{{h: h0, key: j.keyOf(h0), or: newHVSOracle(), ob: ob0, parent: -1, tok: -1}}
+	visited := map[hvsKey]bool{{nodes[0].key, nodes[0].or}: true}
+	frontier := []int32{0}
+	var viols []hvsViol
+	var states, transitions, replays int64 = 1, 0, 0
+	var mismatch int64
+	complete := true
+	for depth := 0; depth < hvsDepth && len(frontier) > 0 && complete; depth++ {
+		var next []int32
+		for lo := 0; lo < len(frontier); lo += batchSize {
+			hi := lo + batchSize
+			if hi > len(frontier) {
+				hi = len(frontier)
+			}
+			if r.Expired() {
+				complete = false
+				break
+			}
+			batch := frontier[lo:hi]
+			type exp struct {
+				succs []hvsSucc
+				viols []hvsViol
+				tr    int64
+			}
+			exps := make([]exp, len(batch))
+			par.For(int64(len(batch)), 2, nil, func(bi int64) {
+				idx := batch[bi]
+				nd := &nodes[idx]
+				var ex exp
+				for ti, t := range j.toks {
+					c := ctypes.VerifC02CloneHVS(nd.h, types.VerifC02Clone)
+					added, err, p := j.apply(c, t)
+					ex.tr++
+					atomic.AddInt64(hvsTokenCount[t.kind], 1)
+					if err == ctypes.ErrGotVoteFromUnwantedRound {
+						atomic.AddInt64(&hvsRefusedRound, 1)
+					}
+					if p != "" {
+						ex.viols = append(ex.viols, hvsViol{fired{"hvs-panic", t.name + " panicked: " + firstLine(p)}, idx, int16(ti)})
+						continue
+					}
+					key := j.keyOf(c)
+					or := nd.or.apply(t)
+					ob, p := j.observe(c)
+					if p != "" {
+						ex.viols = append(ex.viols, hvsViol{fired{"hvs-panic", "query after " + t.name + " panicked: " + firstLine(p)}, idx, int16(ti)})
+						continue
+					}
+					fs := j.judge(nd.ob, t, added, err, ob, or)
+					for _, f := range fs {
+						ex.viols = append(ex.viols, hvsViol{f, idx, int16(ti)})
+					}
+					if (int(idx)*len(j.toks)+ti)%64 == 0 {
+						atomic.AddInt64(&replays, 1)
+						f := j.newHVS()
+						for _, x := range append(j.path(nodes, idx), t) {
+							j.apply(f, x)
+						}
+						ob2, _ := j.observe(f)
+						if j.keyOf(f) != key || ob2 != ob {
+							atomic.AddInt64(&mismatch, 1)
+						}
+					}
+					if len(fs) > 0 || visited[hvsKey{key, or}] {
+						continue
+					}
+					ex.succs = append(ex.succs, hvsSucc{int16(ti), c, key, or, ob})
+				}
+				exps[bi] = ex
+			})
+			for bi, ex := range exps {
+				pidx := batch[bi]
+				nodes[pidx].h = nil
+				transitions += ex.tr
+				viols = append(viols, ex.viols...)
+				for _, sc := range ex.succs {
+					k := hvsKey{sc.key, sc.or}
+					if visited[k] {
+						continue
+					}
+					visited[k] = true
+					nodes = append(nodes, hvsNode{h: sc.h, key: sc.key, or: sc.or, ob: sc.ob, parent: pidx, tok: sc.tok, depth: int16(depth + 1)})
+					states++
+					next = append(next, int32(len(nodes)-1))
+				}
+			}
+		}
+		frontier = next
+	}
+	if !complete {
+		r.NotExhaustive(fmt.Sprintf("deadline in the HeightVoteSet search of vector %s after %d states", vecName(j.pw), states))
+	}
+	withMaj := 0
+	catchup := 0
+	for i := range nodes {
+		for s := 0; s < hvsSets; s++ {
+			if nodes[i].ob.sets[s].ok {
+				withMaj++
+				break
+			}
+		}
+		if nodes[i].ob.exists[setIndex(3, kproto.PrevoteType)] && nodes[i].or.tracked < 3 {
+			catchup++
+		}
+	}
+	if os.Getenv("VERIF_VERBOSE") != "" {
+		fmt.Printf("hvs %s: %d states, %d transitions, %d with majority, %d with peer-created round, fixpoint-to-depth=%v\n", vecName(j.pw), states, transitions, withMaj, catchup, complete)
+	}
+	r.Add("hvs_states", states)
+	r.Add("hvs_transitions", transitions)
+	r.Add("states", states)
+	r.Add("transitions", transitions)
+	r.Add("traces_validated_against_impl", transitions)
+	r.Add("hvs_states_with_a_majority", int64(withMaj))
+	r.Add("hvs_states_with_a_peer_created_round", int64(catchup))
+	r.Add("hvs_clone_vs_replay_validations", replays)
+	if mismatch > 0 {
+		fmt.Printf("MACHINERY-ERROR property=C02 %d cloned HeightVoteSets differ from a fresh replay\n", mismatch)
+		r.Vacuous("HeightVoteSet clone diverged from replay")
+	}
+	if r.WantSample() {
+		for i := range nodes {
+			if nodes[i].ob.polRound >= 2 && nodes[i].or.tracked >= 2 {
+				r.Sample(map[string]interface{}{"kind": "hvs-state", "vector": j.pw, "history": hvsOpNames(j.path(nodes, int32(i))),
+					"impl_pol_round": nodes[i].ob.polRound, "impl_pol_block": blkName[nodes[i].ob.polBlk], "reference_round_announced": nodes[i].or.tracked})
+				break
+			}
+		}
+	}
+	// violations: minimise one representative per (oracle, multiset of token kinds), keep one per (oracle, set of kinds)
+	type cand struct {
+		ops   []*hvsToken
+		f     fired
+		count int
+	}
+	bestH := map[string]*cand{}
+	seen := map[string]bool{}
+	for _, v := range viols {
+		ops := append(j.path(nodes, v.parent), j.toks[v.tok])
+		var ks []string
+		for _, t := range ops {
+			ks = append(ks, t.kind)
+		}
+		sort.Strings(ks)
+		g := v.f.oracle + "|" + strings.Join(ks, ",")
+		if seen[g] {
+			continue
+		}
+		seen[g] = true
+		fires := func(c []*hvsToken) ([]*hvsToken, string, bool) {
+			step, fs := j.runOps(c, nil)
+			if step < 0 {
+				return nil, "", false
+			}
+			ok, d := firesOracle(fs, v.f.oracle)
+			if !ok {
+				return nil, "", false
+			}
+			return c[:step+1], d, true
+		}
+		cur, detail, ok := fires(ops)
+		if !ok {
+			fmt.Printf("MACHINERY-ERROR property=C02 HeightVoteSet violation %s not reproduced by replay of %v\n", v.f.oracle, hvsOpNames(ops))
+			r.Vacuous("a HeightVoteSet violation was not reproduced by a fresh replay")
+			continue
+		}
+		for changed := true; changed; {
+			changed = false
+			for i := len(cur) - 1; i >= 0; i-- {
+				c := append(append([]*hvsToken(nil), cur[:i]...), cur[i+1:]...)
+				if c2, d2, ok := fires(c); ok {
+					cur, detail, changed = c2, d2, true
+					if i > len(cur) {
+						i = len(cur)
+					}
+				}
+			}
+		}
+		km := map[string]bool{}
+		for _, t := range cur {
+			km[t.kind] = true
+		}
+		var kk []string
+		for k := range km {
+			kk = append(kk, k)
+		}
+		sort.Strings(kk)
+		class := v.f.oracle + "|" + strings.Join(kk, ",")
+		b := bestH[class]
+		if b == nil || len(cur) < len(b.ops) || (len(cur) == len(b.ops) && strings.Join(hvsOpNames(cur), ";") < strings.Join(hvsOpNames(b.ops), ";")) {
+			n := 1
+			if b != nil {
+				n += b.count
+			}
+			bestH[class] = &cand{cur, fired{v.f.oracle, detail}, n}
+		} else {
+			b.count++
+		}
+	}
+	var classes []string
+	for c := range bestH {
+		classes = append(classes, c)
+	}
+	sort.Strings(classes)
+	for _, c := range classes {
+		b := bestH[c]
+		if hvsReported[c] {
+			continue // already reported for an earlier (smaller) vector
+		}
+		hvsReported[c] = true
+		sig := fmt.Sprintf("C02|hvs|vector=%s|ops=%s|oracle=%s", vecName(j.pw), strings.Join(hvsOpNames(b.ops), ";"), b.f.oracle)
+		cs := Case{Kind: "hvs", Vector: j.pw, Ops: hvsOpNames(b.ops), Oracle: b.f.oracle}
+		r.ViolationConfirmed(sig, b.f.detail, cs, func() string {
+			step, fs := j.runOps(b.ops, nil)
+			if ok, _ := firesOracle(fs, b.f.oracle); ok && step == len(b.ops)-1 {
+				return sig
+			}
+			return "not reproduced"
+		})
+	}
+}
+
+var hvsReported = map[string]bool{}
+
+func runHVS() {
+	for _, k := range []string{"vote", "vote-B", "future", "!h", "!type", "setround", "claim"} {
+		hvsTokenCount[k] = new(int64)
+	}
+	vectors := [][]int64{{2, 1, 1}, {1, 1, 1}}
+	if r.Quick() {
+		hvsDepth, vectors = 3, vectors[:1]
+	}
+	for _, pw := range vectors {
+		if r.Expired() {
+			r.NotExhaustive("deadline before the HeightVoteSet search of vector " + vecName(pw))
+			continue
+		}
+		newHVSJob(pw).explore()
+	}
+	for k, c := range hvsTokenCount {
+		r.Require(atomic.LoadInt64(c) > 0, "HeightVoteSet token kind "+k+" never executed")
+	}
+	r.Add("hvs_votes_refused_for_unwanted_round", hvsRefusedRound)
+	r.Require(r.Get("hvs_states_with_a_majority") > 0, "no HeightVoteSet state with a majority")
+	r.Require(r.Get("hvs_states_with_a_peer_created_round") > 0, "no HeightVoteSet state with a peer-created (catch-up) round")
+	r.Require(hvsRefusedRound > 0, "the catch-up round limit was never hit")
+	r.Set("hvs_rule", fmt.Sprintf("every history of at most %d operations over: each of 3 validators' vote for A in rounds 1-3 (prevote, precommit) delivered by its own peer, "+
+		"validator 0's conflicting votes for B delivered by a fourth peer, one vote for round 4 (third unknown round of peer p0), a wrong-height vote for an unknown round, "+
+		"an invalid vote type, SetRound(2), SetRound(3), SetPeerMaj23 for rounds 1 and 2; vectors %v", hvsDepth, vectors))
+}
+
+func replayHVS(c Case) {
+	j := newHVSJob(c.Vector)
+	var ops []*hvsToken
+	for _, name := range c.Ops {
+		t := j.byName[name]
+		if t == nil {
+			r.Vacuous("unknown token in replay case: " + name)
+			return
+		}
+		ops = append(ops, t)
+	}
+	fmt.Printf("replaying vector=%s ops=%s on a fresh HeightVoteSet\n", vecName(j.pw), strings.Join(c.Ops, ";"))
+	step, fs := j.runOps(ops, func(s string) { fmt.Println(s) })
+	if step < 0 {
+		fmt.Println("observed: the property holds on this history")
+	}
+	for _, f := range fs {
+		fmt.Printf("observed: oracle=%s at step %d: %s\n", f.oracle, step+1, f.detail)
+		r.Violation(fmt.Sprintf("C02|hvs|vector=%s|ops=%s|oracle=%s", vecName(j.pw), strings.Join(hvsOpNames(ops[:step+1]), ";"), f.oracle), f.detail, c)
+	}
+}
